@@ -51,6 +51,10 @@ LENGTHS = list(range(1, 81)) + [96, 100, 127, 128, 129, 255, 256, 257, 1000, 131
 BIG_LENGTHS = [2048, 4095, 4096, 4097, 8192, 12288, 16384, 32768, 65535, 65536, 65537, 65560, 70000, 131072]
 
 
+# C11: source callback alone and together with a repair callback (which the Reed-Solomon codecs never call)
+CB11 = ("buf", "null", "mix", "buf rep", "mix rep", "buf")
+
+
 def both_role(rng, p):
     """15 % of the random decoder executions use an OF_ENCODER_AND_DECODER instance; half of those first build
     some repair symbols of the block on it (a sender that also checks its own block)"""
@@ -495,13 +499,13 @@ def workload(pid, tier, rng):
         execs += big_symbols(rng, 24 if q else 400, cbs=cbs_all)
     elif pid == "C11":
         execs += ldpc_exhaustive(ld_small[:4 if q else 8], rng, apis=("recv", "setavail"), finish=(True,),
-                                 cbs=("buf", "null", "mix"), orders=1, probe="end")
-        execs += rs_exhaustive(rs_small[:30 if q else None], rng, apis=("recv", "setavail"), cbs=("buf", "null", "mix"),
+                                 cbs=CB11, orders=1, probe="end")
+        execs += rs_exhaustive(rs_small[:30 if q else None], rng, apis=("recv", "setavail"), cbs=CB11,
                                orders=1, probe="end")
-        execs += random_ldpc(rng, 600 if q else 25000, 40 if q else 64, cbs=("buf", "null", "mix"))
-        execs += dense_ldpc(rng, 300 if q else 12000, cbs=("buf", "null", "mix"), finish_choices=(True, False), probe="end")
-        execs += random_rs(rng, 600 if q else 25000, 40 if q else 255, cbs=("buf", "null", "mix"))
-        execs += big_symbols(rng, 48 if q else 800, cbs=("buf", "buf", "null", "mix"))
+        execs += random_ldpc(rng, 600 if q else 25000, 40 if q else 64, cbs=CB11)
+        execs += dense_ldpc(rng, 300 if q else 12000, cbs=CB11, finish_choices=(True, False), probe="end")
+        execs += random_rs(rng, 600 if q else 25000, 40 if q else 255, cbs=CB11)
+        execs += big_symbols(rng, 48 if q else 800, cbs=CB11)
     elif pid == "C08":
         execs += release_everywhere(ld_small[:8 if q else 12] + [rs_small[i] for i in range(0, len(rs_small), 3 if q else 1)], rng)
         execs += random_ldpc(rng, 600 if q else 25000, 40 if q else 64, cbs=cbs_all)
